@@ -150,7 +150,22 @@ prop('C10', level='other', design_ref='DESIGN.md section 6 (C10)',
                   'retry loops of DB.limited_history / all_utxos (termination)'],
      assumptions=['A-FIFO: the task woken by backed_up_event runs before another block completes'])
 
-for _pid in ['C01', 'C03', 'C04', 'C05', 'C07', 'C08', 'C09', 'C11', 'C14']:
+prop('C14', level='other', design_ref='DESIGN.md section 6 (C14)',
+     technique='deductive verification of the compaction batch discipline and start-up scrubbing (VCs from real source, '
+               'z3/cvc5) + bounded native compaction scenarios on a real LevelDB',
+     text='_flush_compaction (delete-before-put, state record, counter transitions), clear_excess, _cancel_compaction are proved; '
+          'row re-chunking (_compact_hashX/_compact_prefix) and the whole tool run incl. kills are a bounded stand-in.',
+     note='Trusted: T-LDB, T-STRUCT, write_state as a function of the counters. Bounded: generated index databases, row sizes '
+          '{1,2,3,12500}, batch limits, kills between batches, abandon-then-index.',
+     explanation='Batch discipline deductive; content preservation bounded (labelled); KF-C14-1 listed.',
+     bounded=[{'obligation': 'index.c14.bounded', 'driver': 'index_scenario.py', 'request': {'mode': 'c14', 'rounds': 14},
+               'what': 'every history identical before/after compaction (one go, batches, killed and resumed, abandoned then '
+                       'indexing/undoing on top)',
+               'bound': '14 (thorough: 84) generated databases x row sizes {1,2,3,12500} x batch limits {1,30,200,8e6} x 5 modes'}],
+     not_decided=['_compact_hashX / _compact_prefix / _compact_history row re-chunking not under deductive contract'],
+     assumptions=[])
+
+for _pid in ['C01', 'C03', 'C04', 'C05', 'C07', 'C08', 'C09', 'C11']:
     na(_pid, 'contracts for this property are not yet built in this round (planned: DESIGN.md section 6); nothing is claimed')
 na('C06', 'quantifies over cancellation instants of an asyncio task while worker-thread jobs keep running: not '
           'expressible as pre/postconditions of functions in a sequential or cooperative model (DESIGN.md section 6, C06)')
